@@ -33,7 +33,7 @@ from props import xlate_tie
 EXTRACTORS = ["Generic", "Stb"]
 # Props/C17Xlate.lean: the hand model of `_squeeze_transpose_broadcast` and of the numpy wrappers equals the Lean definitions
 # that tools/extract/stb.py translates from /repo's source on every run (built and audited with C17)
-EXTRA_PROPS = ["C17Lower", "C17Xlate"]
+EXTRA_PROPS = ["C17Lower", "C17Xlate", "C17LowerOps"]
 BACKENDS = ["numpy", "numpy.numpylike", "numpy.einsum"]
 FORBIDDEN = (ast.For, ast.AsyncFor, ast.While, ast.If, ast.IfExp, ast.ListComp, ast.SetComp, ast.DictComp, ast.GeneratorExp,
              ast.Lambda, ast.Try, ast.With, ast.AsyncWith, ast.Match, ast.BoolOp, ast.NamedExpr, ast.Await, ast.Yield, ast.YieldFrom,
